@@ -75,6 +75,10 @@ def run(ctx):
         for s in core.singletons(ver, rng, ctx.n(40, 700)):
             pfx, fields = obs.parse_fields(ver, s)
             cases.append((ver, pfx, dict(fields), s))
+    for ver in "23":
+        for s in core.special(ver, rng, ctx.n(2500, 50000)):
+            pfx, fields = obs.parse_fields(ver, s)
+            cases.append((ver, pfx, dict(fields), s))
     # every mandatory-only v3 vector of one minor version (the other minor version is its twin)
     from .. import spaces
     for i, a in enumerate(spaces.all_base("3")):
